@@ -152,6 +152,10 @@ theorem wfEnc_draw (m : Enc.Encoder) (h : WFEnc m) (op : Enc.DrawOp) (args : Lis
   · exact wfEnc_flush _ (wfEnc_of_eq rfl rfl (hwf2 .drawing))
   · exact wfEnc_of_eq rfl rfl (hwf2 .drawing)
 
+/-- non-vacuity of `WFEnc`: two buffered `LineTo` calls; and a state that is NOT well formed (operands without verb) -/
+example : WFEnc { mode := .drawing, drawOp := some (.v2 .L), drawArgs := [[⟨0⟩, ⟨0x3f800000⟩], [⟨0⟩, ⟨0⟩]] } ∧
+    ¬ WFEnc { drawArgs := [[⟨0⟩]] } := by decide
+
 tolerant
 /-- every call of the `Destination` API preserves `WFEnc` -/
 theorem wfEnc_step (m : Enc.Encoder) (h : WFEnc m) (c : Call F32) : WFEnc (m.step c) := by
